@@ -63,7 +63,7 @@ func init() {
 			issues = uniq(issues)
 			r.Check(len(issues) == 0, "BPM."+fn.Name()+":mutex-released-on-all-exits", "pool mutex is released on every exit", strings.Join(issues, "; "))
 		}
-		r.Floor("BufferPoolManager methods", n, 15)
+		r.Floor("BufferPoolManager methods", n, 12)
 	})
 
 	reg("C13-R1", "pool metadata (pageTable, freeList, pages[], replacer, reUsablePageList) is read and written only with b.mutex held (caller-holds: getFrameID; recovery-only setters and test-only getters are allow-listed by name and their callers checked)", func(w *World, r *Report) {
